@@ -54,3 +54,13 @@ Proof. exact stride_push_sound. Qed.
 Theorem C05_stride_observers : forall st, stride_wf st ->
   stride_len st = length (stride_abs st) /\ stride_iter st = Ok (stride_abs st).
 Proof. intros st H. exact (conj (stride_len_spec st) (@stride_iter_spec st H)). Qed.
+
+(** Once anything was spilled — whichever of the two spill vectors it went to, the 64-bit one included when the
+    first spilled value is >= 2^32 — the stride is frozen: every later index goes to the spill list, in order,
+    so nothing is ever stored in front of an already spilled index. *)
+From FC Require Import Index.StrideCost.
+Theorem C05_spill_freezes_stride : forall l o, il_is_empty (spilled o) = false ->
+  fold_left io_push l o = {| strided := strided o; spilled := fold_left il_push l (spilled o) |}.
+Proof. exact io_pushes_spilled. Qed.
+Theorem C05_spill_list_never_empties : forall s x, il_is_empty (il_push s x) = false.
+Proof. exact il_push_nonempty. Qed.
